@@ -235,7 +235,8 @@ def run_and_validate(ck, exe, behs, tag):
     keys = ("ret", "ev", "fbefore", "ftree", "reads", "len", "net", "netclear", "links", "fds")
     slim = [{"a": e["a"], "arg": e["arg"], "obs": {k: v for k, v in e["obs"].items() if k in keys}} for e in events]
     vlib.log("trace validation of %d runs ..." % len(slim))
-    ok, matched, res = vlib.validate_trace("Trace_ParseMon", slim, cfg="Trace_ParseMon.cfg", tag=tag, xss="1g", timeout=900)
+    ok, matched, res = vlib.validate_trace("Trace_ParseMon", slim, cfg="Trace_ParseMon.cfg", tag=tag, xss="1g",
+                                            timeout=900 if len(slim) < 20000 else 2700)
     vlib.log("trace validation done in %.1fs" % res.wall)
     rejects = [(int(l), int(r), why) for l, r, why in re.findall(r'<<"REJECT", (\d+), (\d+), "([^"]*)">>', res.out)]
     if matched != len(slim):
